@@ -900,6 +900,25 @@ mut("C04", "is_empty_ignores_top_flag", L + "abstract_domain/data.rs", """      
             && !self.contains_top_values
     }""", """            && self.absolute_value.is_none()
     }""", ["R3|is_empty|tests-every-value-field"], "a value consisting only of Top is reported unsatisfiable")
+SI = L + "abstract_domain/interval/simple_interval.rs"
+IV = L + "abstract_domain/interval.rs"
+mut("C04", "residue_compare_raw_regress", SI, "    if (base_left - base_right) % gcd != 0 {", "    if base_left % gcd != base_right % gcd {", ["R4|compute_intersection_residue_class|compared-raw"], "reverts fix e935863")
+mut("C04", "residue_class_negative_regress", SI, "        let residue_class = (residue_class % lcm + lcm) % lcm;", "        let residue_class = (residue_class + lcm) % lcm;", ["R4|compute_intersection_residue_class|cast-to-unsigned"], "reverts fix ca8d683")
+mut("C04", "round_up_signed_addend_regress", IV, """        let rounded = self.try_to_i128().unwrap() + diff;
+        let result = Bitvector::from_i64(i64::try_from(rounded).ok()?)
+            .into_resize_signed(interval.bytesize());
+        (result.try_to_i128().unwrap() == rounded).then_some(result)""", """        let diff = Bitvector::from_u64(diff as u64).into_resize_unsigned(interval.bytesize());
+        self.signed_add_overflow_checked(&diff)""", ["R5|round_up_to_stride_of"], "reverts fix 2e18873 (round up)")
+mut("C04", "single_value_remainder_raw", SI, """                let stride = interval_right.stride as i128;
+                let remainder = interval_right.start.try_to_i128()? % stride;
+                let remainder = (remainder + stride) % stride;""", """                let stride = interval_right.stride as i128;
+                let remainder = interval_right.start.try_to_i128()? % stride;""", ["R4|compute_intersection_residue_class|cast-to-unsigned"], "normalisation of the residue dropped in the (0,_) case")
+mut("C04", "zero_extend_remainder_raw", SI, "                let remainder = (start % stride + stride) % stride;", "                let remainder = start % stride;", ["R4|zero_extend|cast-to-unsigned"], "normalisation dropped in zero_extend")
+mut("C04", "SILENT_rem_euclid", SI, """                let stride = interval_left.stride as i128;
+                let remainder = interval_left.start.try_to_i128()? % stride;
+                let remainder = (remainder + stride) % stride;""", """                let stride = interval_left.stride as i128;
+                let remainder = interval_left.start.try_to_i128()?.rem_euclid(stride);""", [], "same residue through rem_euclid")
+mut("C04", "SILENT_difference_divisible", SI, "    if (base_left - base_right) % gcd != 0 {", "    let difference = base_right - base_left;\n    if !(difference % gcd == 0) {", [], "equivalent congruence test")
 
 for prop, name, spec in M:
     if name.startswith("SILENT_"):
